@@ -757,14 +757,29 @@ where
                     inner,
                 ))
             },
-            // The repetition begins and ends with a separator.
+            // The repetition begins and ends with a component boundary, possibly within nested
+            // branches.
             //
-            // For example, `</foo/bar/:1,>`.
-            StartEnd((left, _), (right, _)) if left.boundary().and(right.boundary()).is_some() => {
+            // For example, `</foo/bar/:1,>` or `<{/foo/}:1,>`.
+            StartEnd((left, _), (right, _))
+                if has_starting_boundary(Some(left)) && has_ending_boundary(Some(right)) =>
+            {
                 Err(CorrelatedError::new(
                     RuleErrorKind::AdjacentBoundary,
                     Some(left),
                     right,
+                ))
+            },
+            // The repetition is a singular branch that begins and ends with a component boundary.
+            //
+            // For example, `<{/,foo/}:1,>`.
+            Only((token, None))
+                if has_starting_boundary(Some(token)) && has_ending_boundary(Some(token)) =>
+            {
+                Err(CorrelatedError::new(
+                    RuleErrorKind::AdjacentBoundary,
+                    None,
+                    token,
                 ))
             },
             // The repetition is a singular separator.
